@@ -117,3 +117,4 @@ def run_api(ck, programs, tag, in_scope, per_program_timeout=60, extra_classify=
     ck.cov["traces_validated_against_impl"] += len(programs) - len({r[0] for r in v.rejections})
     ck.cov["evaluations"] += njudged
     return trace, v, other
+REASON_PROP["a refused call wrote to the file"] = "C13"
